@@ -5,6 +5,9 @@ mod common;
 mod rng;
 mod c11;
 mod c13;
+mod c14;
+mod fi_fields;
+mod legacy_fields;
 
 use std::io::{BufWriter, Write};
 
@@ -25,6 +28,7 @@ fn main() {
             match prop {
                 "C11" => c11::gen(tier, seed, &mut out),
                 "C13" => c13::gen(tier, seed, &mut out),
+                "C14" => c14::gen(tier, seed, &mut out),
                 _ => {
                     eprintln!("unknown property {}", prop);
                     std::process::exit(2);
@@ -60,6 +64,7 @@ fn replay_one(toks: &[&str]) -> String {
             c11::observe(fmt, &cs)
         }
         "C13" => c13::replay(&toks[1..]),
+        "C14" => c14::replay(&toks[1..]),
         other => format!("unknown-model {}", other),
     }
 }
